@@ -385,6 +385,23 @@ func runC07(c *Ctx) {
 	}
 	if expiry == nil || orphan == nil {
 		c.Unresolved("R4.passes", "expiry pass (calls the validity test) and orphan pass")
+	} else {
+		// the orphan pass judges what the agent itself reported: it runs before the pass that removes identities from
+		// the agent (the remover edits the shared listing, so a later orphan pass sees a pruned - possibly empty - list
+		// and its "agent may be locked" guard keeps keyless certificates)
+		var pcO, pcE *ssa.Call
+		for _, pc := range passes {
+			switch pc.Call.StaticCallee() {
+			case orphan:
+				pcO = pc
+			case expiry:
+				pcE = pc
+			}
+		}
+		if pcO != nil && pcE != nil {
+			c.Check(pcO.Parent() == pcE.Parent() && InstrDominates(pcO, pcE), "R4.passes", "filter|orphan pass sees the agent's unpruned listing", w.Pos(pcO.Pos()), "the orphan pass precedes the expiry pass",
+				"the orphan pass runs after the expiry pass has removed identities from the agent and from the shared listing: when only expired identities were listed it sees an empty list and keeps certificates whose key is gone")
+		}
 	}
 	// remove: deletes in memory and calls agent.Remove(key)
 	okAgentRemove := false
